@@ -212,6 +212,11 @@ func TestC09(t *testing.T) {
 		}
 		u.c.Close()
 	}
+	for run := 0; run < ev.Pick(1, 3); run++ {
+		c09LendRun(t, rec, run)
+	}
+	rec.Floor("borrow_seizures_by_sweep", 3)
+	rec.Floor("safe_side_borrow_sweeps_observed", 50)
 	rec.Floor("seizures_gen2_by_sweep", 5)
 	rec.Floor("seizures_gen1_by_message", 2)
 	rec.Floor("safe_side_sweeps_observed", 20)
